@@ -166,6 +166,9 @@ struct Counters {
 }
 
 pub fn quiet_panics() {
+    if std::env::var("VERIF_LOUD").is_ok() {
+        return;
+    }
     std::panic::set_hook(Box::new(|_| {}));
 }
 
@@ -186,7 +189,11 @@ pub fn run_worker<P: Property>(tier: Tier, seed: u64, worker: usize, n: u64, dir
     let strategy = P::strategy(tier);
     let env = RefCell::new(Env::new(&dir.join(format!("scratch{}", worker)), tier, worker));
     let ctr = RefCell::new(Counters::default());
+    let trace = std::env::var("VERIF_TRACE").is_ok();
     let result = runner.run(&strategy, |case| {
+        if trace {
+            eprintln!("CASE {}", serde_json::to_string(&case).unwrap_or_default());
+        }
         let v = {
             let mut e = env.borrow_mut();
             match std::panic::catch_unwind(std::panic::AssertUnwindSafe(|| P::check(&case, &mut e))) {
@@ -204,6 +211,9 @@ pub fn run_worker<P: Property>(tier: Tier, seed: u64, worker: usize, n: u64, dir
                 }
             }
         };
+        if trace {
+            eprintln!("  -> {:?}", v.fail);
+        }
         let mut c = ctr.borrow_mut();
         if !c.failed {
             c.cases += 1;
@@ -596,4 +606,12 @@ pub fn pick(i: u16, len: usize) -> usize {
 
 pub fn boxed<S: Strategy + 'static>(s: S) -> BoxedStrategy<S::Value> {
     s.boxed()
+}
+
+/// Whether known_findings.json lists (property, signature) with status "known".
+pub fn is_known_finding(property: &str, signature: &str) -> bool {
+    thread_local! {
+        static KF: Vec<KnownFinding> = load_known_findings();
+    }
+    KF.with(|k| k.iter().any(|f| f.property == property && f.signature == signature && f.status == "known"))
 }
